@@ -552,6 +552,20 @@ def join_states(an, a, b, frame, bb, widen=False):
                 r.sets[s] = va | vb
             # relational facts about the phi: keep constraints c(x) that hold for both inputs
             r_phi_rel.append((s, x[1], y[1]))
+            # bit-level definition of the merged value (bits equal on both sides stay known); a phi that is re-joined with
+            # itself (loop head) stands for more values than its first two inputs: no definition
+            bd = getattr(an, 'bitdef', None)
+            if bd is not None:
+                poison = an.__dict__.setdefault('_bitdef_poison', set())
+                if x[1] == Lin.sym(s) or y[1] == Lin.sym(s) or s in x[1].co or s in y[1].co:
+                    bd.pop(s, None)
+                    poison.add(s)
+                elif s not in poison:
+                    if s in bd and bd[s] != ('join', x[1], y[1], None):
+                        bd.pop(s, None)
+                        poison.add(s)
+                    else:
+                        bd[s] = ('join', x[1], y[1], None)
             return ('int', Lin.sym(s))
         if kx == 'bool' and ky == 'bool':
             changed = True
